@@ -124,6 +124,14 @@ Theorem C40_raft_sms_from_leader_completeness : forall n,
 Proof. exact sms_from_lc. Qed.
 Print Assumptions C40_raft_sms_from_leader_completeness.
 
+(* the election restriction: a vote is granted only to a candidate whose last log position
+   (term first, then index) is at least the voter's own *)
+Theorem C40_raft_vote_restriction : forall others maj s from t lli llt s' o to r,
+  handle_msg others maj s from (RV t lli llt) = Some (s', o) -> In (to, r) o ->
+  pair_ge (llt, lli) (last_log_position s) = true /\ to = from /\ r = RVR (term s') /\ voted_for s' = Some from.
+Proof. exact vote_restriction. Qed.
+Print Assumptions C40_raft_vote_restriction.
+
 (* ------------------------------------------------------------------ Paxos *)
 (* abstract multi-Paxos (ballots, p1a/p1b/p2a/p2b; Proto/PaxosModel.v): at most one value is ever
    chosen per slot, for every execution (any message delay/reordering/duplication/loss; any
